@@ -31,10 +31,13 @@ pub struct Shape {
     pub chm: [u32; MAXN + 1],
     pub him: [u32; MAXN + 1],
     pub dem: [u32; MAXN + 1],
+    /// the initial transition of the <scxml> element has type internal, as the XML reader and the binary reader build it: its domain is
+    /// the root itself, so the root is never entered and never part of a configuration (false: external, the root is entered at start-up)
+    pub root_internal: bool,
 }
 
 fn shape(n: usize, parent: &[u32], kind: &[u32]) -> Shape {
-    let mut s = Shape { n, parent: [0; MAXN + 1], kind: [0; MAXN + 1], doc: [0; MAXN + 1], init: [[0; 2]; MAXN + 1], hdef: [0; MAXN + 1], init_content: [0; MAXN + 1], ord: [0; MAXN + 1], chm: [0; MAXN + 1], him: [0; MAXN + 1], dem: [0; MAXN + 1] };
+    let mut s = Shape { n, parent: [0; MAXN + 1], kind: [0; MAXN + 1], doc: [0; MAXN + 1], init: [[0; 2]; MAXN + 1], hdef: [0; MAXN + 1], init_content: [0; MAXN + 1], ord: [0; MAXN + 1], chm: [0; MAXN + 1], him: [0; MAXN + 1], dem: [0; MAXN + 1], root_internal: false };
     let mut i = 1;
     while i <= n { s.parent[i] = parent[i]; s.kind[i] = kind[i]; s.doc[i] = i as u32; i += 1; }
     s
@@ -123,6 +126,12 @@ impl Shape {
     }
     /// all legal sub-configurations of the subtree rooted at `s` given that `s` is active
     pub fn configs_of(&self, s: u32) -> Vec<u32> {
+        if s == 1 && self.root_internal {
+            let mut plain = *self; plain.root_internal = false;
+            let mut v = plain.configs_of(1);
+            for c in v.iter_mut() { *c &= !2; }
+            return v;
+        }
         let ch = self.ordered(self.children(s));
         let bit = 1u32 << s;
         if ch.is_empty() { return vec![bit]; }
@@ -142,6 +151,7 @@ impl Shape {
         }
     }
     pub fn legal(&self, c: u32) -> bool {
+        if self.root_internal { if c & 2 != 0 { return false; } let mut plain = *self; plain.root_internal = false; return plain.legal(c | 2); }
         if c & 2 == 0 { return false; }
         let mut s = 1u32;
         while s <= self.n as u32 {
@@ -251,6 +261,7 @@ pub fn build_fsm(m: &Model) -> Fsm {
         if sh.compound(s) || (s == 1 && sh.children(1) != 0) {
             let mut t = Transition::new();
             t.id = T_INIT + s; t.doc_id = 0; t.source = s; t.target = sh.init_targets(s); t.content = sh.init_content[s as usize];
+            if s == 1 && sh.root_internal { t.transition_type = TransitionType::Internal; }
             st.initial = t.id;
             fsm.transitions.insert(t.id, t);
         }
@@ -547,8 +558,10 @@ impl<'a> Ref<'a> {
         let mut out = RefOut { log: Vec::new(), config: Vec::new(), queue: Vec::new(), hv: hv.clone(), running: true, selected: Vec::new() };
         let mut conf = Vec::new();
         let tg = self.sh().init_targets(1);
-        // the <scxml> element is modelled as state 1 and is itself entered at start-up (domain "null")
-        self.enter(&[(tg, 0)], &mut conf, hv, &mut out, first_entry);
+        // the <scxml> element is modelled as state 1; with an external initial transition it is itself entered at start-up (domain
+        // "null"), with an internal one (what the readers build) the domain is the root and only its descendants are entered
+        let dom = if self.sh().root_internal { 1 } else { 0 };
+        self.enter(&[(tg, dom)], &mut conf, hv, &mut out, first_entry);
         out.config = conf;
         out
     }
